@@ -660,7 +660,15 @@ def features(node, under_switch=False, acc=None, rootish=True):
     if k in ("switch", "or_else", "mix"):
         brs = node["branches"] if k != "or_else" else [node["a"], node["b"]]
         firsts = [_first_components(b) for b in brs]
-        has_idx = [any(isinstance(c, int) for c in f) for f in firsts]
+
+        def vec_rooted(b):
+            while b["k"] in ("map", "dimap", "contramap", "partial", "closure", "mask"):
+                b = b["inner"]
+            return b["k"] in ("vmap", "repeat") or b["k"] in SCAN_LIKE
+
+        # a vector-rooted branch looks constraints / choices up by index even if it
+        # makes no choices itself (deterministic kernel)
+        has_idx = [any(isinstance(c, int) for c in f) or vec_rooted(b) for f, b in zip(firsts, brs)]
         has_non = [any(not isinstance(c, int) for c in f) for f in firsts]
         if any(has_idx) and (any(has_non) or not all(has_idx)):
             acc.add("switch_mixed_index")
